@@ -67,6 +67,10 @@ def export_case(cls, variant, events, errors, freeze=False):
   if freeze:
     m(tf.constant(x))
     m, _ = qutils.clone_model_and_freeze_auto_po2_scale(orig_model=m, quantize_model_weights=False)
+    # history: the weights keep changing after the scales were frozen (fine-tuning) - a frozen scale stays what it is
+    rs = np.random.RandomState(len(cls) * 7 + len(variant))
+    m.set_weights([(rs.standard_t(3, size=w.shape) * 0.4).astype(np.float32) if w.dtype == np.float32 and w.ndim >= 2 else w
+                   for w in m.get_weights()])
   y0 = m.predict(x, verbose=0)
   before = {}
   for lay in m.layers:
@@ -181,7 +185,7 @@ def main():
   seed, shard, nshards = int(seed), int(shard), int(nshards)
   rnd = random.Random(seed * 1000 + shard)
   events, errors = [], []
-  cases = [(c, v, False) for c in CLASSES for v in VARIANTS] + [(c, "auto_po2_bounds", True) for c in ("QDense", "QConv2D")]
+  cases = [(c, v, False) for c in CLASSES for v in VARIANTS] + [(c, v, True) for c in ("QDense", "QConv2D") for v in ("auto_po2_bounds", "auto_po2_unsigned")]
   for j, (cls, variant, freeze) in enumerate(cases):
     if j % nshards != shard:
       continue
